@@ -34,8 +34,11 @@ def run_check(prop, tier, nruns=None, config=None, quiet=False):
     tasks = [{"seed": seed, "lo": lo, "hi": hi, "tier": tier, "config": config} for lo, hi in chunks(n, size)]
     cap = float(os.environ.get("VERIF_WALL_CAP", m.TIERS[tier].get("wall_cap", 900)))
     print(f"[{prop}] tier={tier} VERIF_SEED={seed} runs={n} jobs={runner.jobs()} repo={lib.REPO}", flush=True)
+    regress = replay_regressions(prop, m)
     aggs = runner.pmap(m.batch, tasks, wall_cap=cap)
     agg = m.merge(aggs)
+    for sig, payload in regress["reproduced"]:
+        agg["violations"].append((sig, payload, payload.get("run", 0)))
     extra_status = 0
     if hasattr(m, "post"):
         extra_status = m.post(agg, tier, seed) or 0
@@ -44,6 +47,8 @@ def run_check(prop, tier, nruns=None, config=None, quiet=False):
         rep.add(sig, payload, seed, run)
     wall = time.time() - t0
     cov, assumptions, extra = m.evidence(agg, tier, seed, wall)
+    cov["stored_regression_histories_of_repaired_defects_replayed"] = regress["files"]
+    cov["stored_regression_histories_reproduced"] = len(regress["reproduced"])
     path = runner.write_evidence(prop, tier, seed, cov, wall, len(rep.new), assumptions, extra)
     status = rep.finish()
     if agg.get("harness"):
@@ -57,6 +62,28 @@ def run_check(prop, tier, nruns=None, config=None, quiet=False):
     if status == 0:
         print(f"[{prop}] OK: the property held on everything explored")
     return status
+
+
+def replay_regressions(prop, m):
+    """Replay the stored histories of every defect that was repaired (regressions/<prop>/*.json) before sampling:
+    a repaired defect that comes back is reported immediately, under its original signature."""
+    import glob
+    d = os.path.join(runner.VERIF, "regressions", prop)
+    out = {"files": 0, "reproduced": []}
+    for f in sorted(glob.glob(os.path.join(d, "*.json"))):
+        out["files"] += 1
+        try:
+            payload = json.load(open(f, encoding="utf-8"))
+            ok, sig = m.replay(payload)
+        except Exception as e:  # noqa: BLE001
+            print(f"HARNESS-ERROR property={prop} regression file {f}: {type(e).__name__}: {e}")
+            continue
+        if ok:
+            payload["regression_file"] = f
+            out["reproduced"].append((sig, payload))
+    print(f"[{prop}] {out['files']} stored regression histories of repaired defects replayed, "
+          f"{len(out['reproduced'])} reproduced", flush=True)
+    return out
 
 
 def run_replay(path):
